@@ -88,8 +88,15 @@ func runHistory(c Case) *vk.Violation {
 	return v
 }
 
+type kept struct {
+	b    *sms.BatchDataCodingEncoder
+	orig [][]byte
+	step int
+}
+
 func run(c Case) *vk.Violation {
 	var lives []*live
+	var builders []*kept
 	inbuf := make([]byte, 0, 1<<17) // the caller's reused input buffer
 	netbuf := make([]byte, 1<<17)   // the network layer's read buffer behind the frame extractor
 	check := func(step int, after string) *vk.Violation {
@@ -211,10 +218,32 @@ func run(c Case) *vk.Violation {
 			} else {
 				list = []dc.ProtocolDataCoding{dc.CMPP_CODING_UCS2, dc.CMPP_CODING_GBK, dc.CMPP_CODING_ASCII}
 			}
-			parts, _, err := sms.NewBatchDataCodingEncoder().Protocol(pr).Content(text, byte(step)).DataCodings(list).Build(context.Background())
+			builder := sms.NewBatchDataCodingEncoder().Protocol(pr).Content(text, byte(step)).DataCodings(list)
+			parts, _, err := builder.Build(context.Background())
 			if err == nil && len(parts) > 0 {
 				keep(&live{what: "batch:" + op.Proto, step: step, parts: parts, snapP: deep(parts)})
+				builders = append(builders, &kept{b: builder, orig: deep(parts), step: step})
+				if len(builders) > 8 {
+					builders = builders[1:]
+				}
 			}
+		case "rebuild":
+			// the caller keeps a builder and calls Build again: the result is a function of the request
+			// alone and belongs to this caller - whatever happened to the parts returned earlier
+			if len(builders) == 0 {
+				continue
+			}
+			kb := builders[op.Idx%len(builders)]
+			parts, _, err := kb.b.Build(context.Background())
+			if err != nil || len(parts) != len(kb.orig) {
+				return vk.Violf("batch/rebuild-differs", c, "Build called again on the builder of step %d returned %d parts, %v; the first call returned %d parts", kb.step, len(parts), err, len(kb.orig))
+			}
+			for i := range parts {
+				if !bytes.Equal(parts[i], kb.orig[i]) {
+					return vk.Violf("batch/rebuild-returns-memory-handed-out-earlier", c, "Build called again on the builder of step %d: part %d differs from what the first call returned (the caller had overwritten its copy: the library kept and re-issued the caller's memory)", kb.step, i)
+				}
+			}
+			keep(&live{what: "rebuild:" + op.Proto, step: step, parts: parts, snapP: deep(parts)})
 		case "ucs2":
 			s := cmpp.Utf8ToUcs2Pooled(string(vk.UnHex(op.Text)))
 			keep(&live{what: "Utf8ToUcs2Pooled", step: step, str: s, isStr: true, snapB: []byte(s)})
@@ -267,7 +296,7 @@ var texts = []string{"hello", "1234567@abcdefgh", "中文短信内容测试", "[
 	string(bytes.Repeat([]byte("中文"), 80)), string(bytes.Repeat([]byte("[a"), 100))}
 
 var opGen = rapid.Custom(func(t *rapid.T) Op {
-	k := rapid.SampledFrom([]string{"encode", "encode", "encodebad", "decode", "decode", "decode", "framedecode", "string", "split", "batch", "ucs2", "scribble"}).Draw(t, "k")
+	k := rapid.SampledFrom([]string{"encode", "encode", "encodebad", "decode", "decode", "decode", "framedecode", "string", "split", "batch", "batch", "rebuild", "ucs2", "scribble", "scribble"}).Draw(t, "k")
 	op := Op{K: k, Idx: rapid.IntRange(0, 47).Draw(t, "idx")}
 	switch k {
 	case "encodebad":
